@@ -172,6 +172,7 @@ func (x *Exec) Discharge(cfg *SolverCfg) []*Result {
 		}
 		as := append([]*T(nil), x.Assumptions[:o.NAssume]...)
 		as = append(as, axioms...)
+		as = append(as, x.P.specDefAxioms(x)...)
 		var script string
 		if o.Cover {
 			rel := append(append([]*T(nil), x.Assumptions[:o.NAssume]...), o.PC, o.Cond)
@@ -185,6 +186,9 @@ func (x *Exec) Discharge(cfg *SolverCfg) []*Result {
 				var sks []*T
 				goal = skolemize(goal, &sks)
 				rel = append(rel, instances(rel, sks)...)
+			}
+			if len(x.P.SpecDefs) > 0 {
+				rel = append(rel, x.P.defInstances(x, append(append([]*T(nil), rel...), goal))...)
 			}
 			script = term.Script(rel, goal, nil, true)
 			r.Size = term.Size(append(rel, goal)...)
@@ -483,6 +487,16 @@ func (x *Exec) implied(st *State, goal *T) bool {
 	as = append(as, x.P.axiomTerms(x)...)
 	rel := relevant(as, st.PC, goal)
 	rel = append(rel, st.PC)
+	// Only the quantifier-free hypotheses are used: dropping hypotheses keeps "unsat" (= implied)
+	// sound, and without quantifiers the solvers answer "sat" at once instead of running into the
+	// timeout. "Not implied" merely means that both arms of the test are followed.
+	qf := rel[:0:0]
+	for _, r := range rel {
+		if !hasQuant(r) {
+			qf = append(qf, r)
+		}
+	}
+	rel = qf
 	script := term.Script(rel, goal, nil, false)
 	f, err := os.CreateTemp("", "govc-fold*.smt2")
 	if err != nil {
@@ -493,7 +507,7 @@ func (x *Exec) implied(st *State, goal *T) bool {
 	defer os.Remove(f.Name())
 	x.FoldQueries++
 	for _, sd := range solvers[:2] {
-		st, _, _ := runSolver(context.Background(), sd, 5*time.Second, f.Name())
+		st, _, _ := runSolver(context.Background(), sd, 3*time.Second, f.Name())
 		if st == "unsat" {
 			return true
 		}
@@ -502,4 +516,32 @@ func (x *Exec) implied(st *State, goal *T) bool {
 		}
 	}
 	return false
+}
+
+var quantMemo = map[*T]bool{}
+
+func hasQuant(t *T) bool {
+	if v, ok := quantMemo[t]; ok {
+		return v
+	}
+	r := t.Op == term.OForall || t.Op == term.OExists
+	if !r {
+		for _, a := range t.Args {
+			if hasQuant(a) {
+				r = true
+				break
+			}
+		}
+	}
+	if !r && t.Op == term.OArrMap {
+		t.M.Each(func(_ int64, v *T) bool {
+			if hasQuant(v) {
+				r = true
+				return false
+			}
+			return true
+		})
+	}
+	quantMemo[t] = r
+	return r
 }
